@@ -463,6 +463,27 @@ Proof.
   - rewrite IH. cbn. rewrite <- app_assoc. reflexivity.
 Qed.
 
+Lemma fold_emit_eq name (kvs : list (expr * expr)) : forall s,
+  fold_left (fun st kv => emit (SSetItemV name (fst kv) (snd kv)) st) kvs s =
+  mkFk (stack s) (memo s) (nodes s)
+       (rev (map (fun kv => SSetItemV name (fst kv) (snd kv)) kvs) ++ body s) (ctr s) (stopped s).
+Proof.
+  induction kvs as [|kv r IH]; intros s; cbn.
+  - destruct s; reflexivity.
+  - rewrite IH. cbn. rewrite <- app_assoc. reflexivity.
+Qed.
+
+(* SETITEMS on an object: one item assignment per pair, statement by statement against the log *)
+Lemma rel_events_setitems al i obj : forall kvs kvs' b l,
+  nth_error al i = Some obj -> Forall2 (rel_pair al) kvs kvs' -> rel_events al b l ->
+  rel_events al (rev (map (fun kv => SSetItemV i (fst kv) (snd kv)) kvs) ++ b)
+             (rev (map (fun kv => EvSetItem obj (fst kv) (snd kv)) kvs') ++ l).
+Proof.
+  intros kvs kvs' b l N F. revert b l. induction F as [|p q kvs kvs' [H1 H2] _ IH]; intros b l E.
+  - exact E.
+  - cbn. rewrite <- !app_assoc. apply IH. cbn. eapply RE_setitem; eauto.
+Qed.
+
 Lemma ls_setitems al f v f' v' :
   vstopped v = None ->
   R al f v -> step OSetItems f = Ok f' -> vstep OSetItems v = Ok v' -> Goal_ al f' v'.
@@ -474,17 +495,17 @@ Proof.
   assert (forall x' : val, callable x' = true -> a = x' ->
             forall fz vz,
             Ok (push (EVar (ctr f))
-                  (emit (SExpr (ECall (EAttr (EVar (ctr f)) "update") [EDictLit (pairs_of (rev x0))] None))
+                  (fold_left (fun st kv => emit (SSetItemV (ctr f) (fst kv) (snd kv)) st) (pairs_of (rev x0))
                         (snd (new_variable e (with_stack (with_stack f (IE e :: x)) x))))) = Ok fz ->
             Ok (fold_left (fun st kv => vlog (EvSetItem x' (fst kv) (snd kv)) st) x2
                           (with_frames v (a :: c) x6)) = Ok vz ->
             Goal_ al fz vz) as VP.
-  { intros x' Hc -> fz vz E1 E2. rewrite fold_vlog_eq in E2.
+  { intros x' Hc -> fz vz E1 E2. rewrite fold_vlog_eq in E2. rewrite fold_emit_eq in E1.
     inversion E1; subst; clear E1. inversion E2; subst; clear E2.
     destruct (newvar_env _ _ _ x' HR Hc) as (X & N & L & Fv & S' & M' & H' & E').
     unfold Goal_; exists (al ++ [x']); split; [exact X|]; constructor; simp_proj; try assumption.
     - constructor; [constructor; exact N | eapply rel_stack_mono; eauto].
-    - eapply RE_update; [exact N | eapply rel_pairs_mono; eauto |].
+    - apply rel_events_setitems; [exact N | eapply rel_pairs_mono; eauto |].
       eapply RE_alias; [eapply rel_mono; eauto | exact N | exact E'].
     - rewrite NS; exact Rp. }
   inversion Ra; subst; cbn in Hs, Hv; try discriminate.
@@ -826,9 +847,6 @@ Proof.
   - destruct (IHrel_events _ _ _ _ Hin) as (i1 & fe & a & kw1 & Hi & ?). exists i1, fe, a, kw1. split; [right; exact Hi | assumption].
   - destruct Hin as [Hin|Hin]; [discriminate|].
     destruct (IHrel_events _ _ _ _ Hin) as (i1 & fe & a & kw1 & Hi & ?). exists i1, fe, a, kw1. split; [right; exact Hi | assumption].
-  - apply in_app_or in Hin. destruct Hin as [Hin|Hin].
-    + apply in_rev in Hin. apply in_map_iff in Hin. destruct Hin as (kv & E & _). discriminate.
-    + destruct (IHrel_events _ _ _ _ Hin) as (i1 & fe & a & kw1 & Hi & ?). exists i1, fe, a, kw1. split; [right; exact Hi | assumption].
   - destruct (IHrel_events _ _ _ _ Hin) as (i1 & fe & a & kw1 & Hi & ?). exists i1, fe, a, kw1. split; [right; exact Hi | assumption].
 Qed.
 
@@ -845,9 +863,6 @@ Proof.
   - destruct Hin as [Hin|Hin]; [discriminate | right; eauto].
   - right; eauto.
   - destruct Hin as [Hin|Hin]; [discriminate | right; eauto].
-  - apply in_app_or in Hin. destruct Hin as [Hin|Hin].
-    + apply in_rev in Hin. apply in_map_iff in Hin. destruct Hin as (kv & E & _). discriminate.
-    + right; eauto.
   - right; eauto.
 Qed.
 
@@ -868,8 +883,5 @@ Proof.
     + destruct (IHrel_events _ _ Hin) as (i1 & st1 & Hi & ?). exists i1, st1. split; [right; exact Hi | assumption].
   - destruct (IHrel_events _ _ Hin) as (i1 & st1 & Hi & ?). exists i1, st1. split; [right; exact Hi | assumption].
   - destruct Hin as [Hin|Hin]; [discriminate|]. destruct (IHrel_events _ _ Hin) as (i1 & st1 & Hi & ?). exists i1, st1. split; [right; exact Hi | assumption].
-  - apply in_app_or in Hin. destruct Hin as [Hin|Hin].
-    + apply in_rev in Hin. apply in_map_iff in Hin. destruct Hin as (kv & E & _). discriminate.
-    + destruct (IHrel_events _ _ Hin) as (i1 & st1 & Hi & ?). exists i1, st1. split; [right; exact Hi | assumption].
   - destruct (IHrel_events _ _ Hin) as (i1 & st1 & Hi & ?). exists i1, st1. split; [right; exact Hi | assumption].
 Qed.
